@@ -55,6 +55,9 @@ def run_case(ctx, case):
             rec.violation("fewer points than control points accepted", case)
         return
     Zi = [q[0] if len(q) == 1 else np.array(list(q), dtype=object) for q in Z]
+    for tw in mixed_twins(list(U), [(F(0),)] * kv_info(list(U))[1], W):      # numerically equal python-int / float knots first
+        impl(lambda: tw.fit_points(Zi) if nodes is None else tw.fit_points(Zi, list(nodes)))
+        rec.count("twin", "mixed-knot-types-first")
     form = form_of(case)
     rec.count("nodes-as", form if nodes is not None else "default")
     r = impl(lambda: curve.fit_points(Zi) if nodes is None else curve.fit_points(Zi, as_form(nodes, form)))
@@ -136,6 +139,8 @@ def run(ctx):
     run_highdeg(ctx)
     for i in range(budget(ctx, 90, 1200)):
         U = rand_kv(rng, pmax=3, nintmax=3)
+        if i % 7 == 4:
+            U = rand_int_kv(rng, pmax=3, nintmax=2) if rng.random() < 0.5 else rand_dyadic_kv(rng, pmax=3, nintmax=2)
         p, n, knots = kv_info(U)
         W = rand_weights(rng, n, rng.choice(["none", "none", "pos"]))
         a, b = U[0], U[-1]
